@@ -14,16 +14,16 @@ PKGS = ["benchseries"]
 def prepare(run, cid, tier):
     def runner(replay):
         t0 = time.time()
-        V, R = run.VERIF, run.REPO
+        V, R, O = run.VERIF, run.REPO, run.OUT
         env = run.goenv()
-        bdir = os.path.join(V, ".build")
+        bdir = os.path.join(O, ".build")
         os.makedirs(bdir, exist_ok=True)
-        scratch = os.path.join(V, ".scratch", cid)
+        scratch = os.path.join(O, ".scratch", cid)
         os.makedirs(scratch, exist_ok=True)
         for f in glob.glob(os.path.join(scratch, "part-*.json")):
             os.remove(f)
         base_env = dict(env)
-        base_env.update({"VERIF_TIER": tier, "VERIF_ROOT": V, "VERIF_KNOWN": os.path.join(V, "known_findings.json"), "VERIF_REPO": R})
+        base_env.update({"VERIF_TIER": tier, "VERIF_ROOT": O, "VERIF_KNOWN": os.path.join(V, "known_findings.json"), "VERIF_REPO": R})
         base_env.setdefault("VERIF_SEED", "0")
         if replay:
             base_env["VERIF_REPLAY"] = os.path.abspath(replay)
